@@ -319,9 +319,12 @@ Section Meta.
   Proof.
     intros Hn Htok Hk Hsh He.
     destruct (twf _ _ Hn) as (W1 & W2 & W3).
-    unfold tok_ok in Htok. rewrite Hk in Htok. destruct Htok as [Htok _].
-    destruct (Htok Hsh) as (pg & Hpg & Hsuf).
-    unfold extract_short in He. rewrite Hpg in He.
+    unfold extract_short in He. cbv zeta in He.
+    destruct (glookup g_page (t_groups t)) as [prefix|];
+      [|match type of He with bind ?x _ = _ => destruct x as [[]|]; discriminate He end].
+    destruct (short_prefix (t_data t) prefix) as [Hp'|(pg & Hp' & Hsuf)]; rewrite Hp' in He.
+    { match type of He with bind ?x _ = _ => destruct x as [[]|]; [|discriminate He] end.
+      cbn [bind extract_pin_cite] in He. discriminate He. }
     set (w := window_bwd MAXC words i true) in *.
     assert (Hante : exists fs : nat,
               zs t - match search PShortAnte w with
@@ -1039,7 +1042,8 @@ Section Meta.
     match type of He with bind ?x _ = _ => destruct x as [[]|]; [|discriminate He] end.
     cbn [bind] in He.
     destruct (glookup g_page (t_groups t)) as [prefix|]; [|discriminate He].
-    destruct (extract_pin_cite search MAXC words i (ze t) prefix) as [[[pin se] par]|];
+    cbv zeta in He.
+    destruct (extract_pin_cite search MAXC words i (ze t) _) as [[[pin se] par]|];
       [|discriminate He].
     cbn [bind] in He. injection He as <-. unfold tokc, is_ref. psimp. auto.
   Qed.
